@@ -240,9 +240,17 @@ def preimage (f : SLCFields) : Bytes := selLogicCall ++ encodeArgs signedTys (si
 def signBytes (H : Hash) (f : SLCFields) : Nat := digest H (preimage f)
 
 /-- compass `submit_logic_call(consensus, args, fee_args, message_id, deadline, relayer)` minus
-    the consensus.  `none` = the Go code panics: `m.Fees.RelayerFee` with `m.Fees == nil`. -/
+    the consensus.  Since /repo commit cab3e325 `VerifyAgainstTX` packs `feesOrDefault(m.Fees)`,
+    exactly like the signing side. -/
 def deliveredTys : List Ty := [callTy, feeTy, .uint256, .uint256, .address]
-def deliveredVals (f : SLCFields) : Option (List V) :=
+def deliveredVals (f : SLCFields) : List V :=
+  [callV (f.contract, f.payload), feeV (feesOrDefault f.fees) f.sender, .word f.id, .word f.deadline,
+   .word f.relayer]
+
+/-- PRE-FIX behaviour (before cab3e325), kept as a regression witness only: the Go code read
+    `m.Fees.RelayerFee` directly, so with `m.Fees == nil` there was no argument list at all
+    (nil-pointer panic, `none`). -/
+def deliveredValsPreFix (f : SLCFields) : Option (List V) :=
   match f.fees with
   | none => none
   | some fe =>
@@ -290,13 +298,12 @@ def signedVals (f : USCFields) : List V :=
 def preimage (f : USCFields) : Bytes := selDeployContract ++ encodeArgs signedTys (signedVals f)
 def signBytes (H : Hash) (f : USCFields) : Nat := digest H (preimage f)
 
-/-- compass `deploy_contract(consensus, deployer, bytecode, fee_args, message_id, deadline, relayer)` -/
+/-- compass `deploy_contract(consensus, deployer, bytecode, fee_args, message_id, deadline, relayer)`;
+    fees through `feesOrDefault` (cab3e325) -/
 def deliveredTys : List Ty := [.address, .bytes, feeTy, .uint256, .uint256, .address]
-def deliveredVals (f : USCFields) : Option (List V) :=
-  match f.fees with
-  | none => none
-  | some fe =>
-    some [.word f.deployer, .bytes f.bytecode, feeV fe f.sender, .word f.id, .word f.deadline, .word f.relayer]
+def deliveredVals (f : USCFields) : List V :=
+  [.word f.deployer, .bytes f.bytecode, feeV (feesOrDefault f.fees) f.sender, .word f.id, .word f.deadline,
+   .word f.relayer]
 
 def mustBind (f : USCFields) : List V :=
   [.word f.deployer, .bytes f.bytecode,
